@@ -141,7 +141,8 @@ PRODUCER_NAMES = ['G', 'PP', 'A-B', 'B', 'Pexecutable', 'a_rather_long_producer_
 
 
 def variations(base_name, w0):
-    """Yields (group, label, world). group = aspect family (two variations of the same group are never combined)."""
+    """Yields (group, label, world[, label of the sibling variation to compare with instead of the base]).
+    group = aspect family (two variations of the same group are never combined)."""
     def new():
         return copy.deepcopy(w0)
     t0 = _target(w0)
@@ -165,7 +166,7 @@ def variations(base_name, w0):
         for how in ('change', 'extend', 'drop'):
             w = new(); a = _target(w)['args']
             a[i] = {'change': a[i].replace('l', 'L').replace('n', 'm'), 'extend': a[i] + 'x ' if a[i].endswith(' ') else a[i] + 'x',
-                    'drop': ' ' if len(a[i].strip()) and (0 < i < len(a) - 1) else ''}[how]
+                    'drop': ' ' if 0 < i < len(a) - 1 else ''}[how]
             if a[i] == t0['args'][i]:
                 continue
             yield 'args', 'args[%d]:%s' % (i, how), w
@@ -190,7 +191,7 @@ def variations(base_name, w0):
         big = w
         yield 'content', 'content[ref%d]:5000-bytes' % ri, big
         w = copy.deepcopy(big); _set_content(w, r, lambda s: _flip(s, 'last'))
-        yield 'content', 'content[ref%d]:5000-bytes-last-flipped' % ri, w
+        yield 'content', 'content[ref%d]:5000-bytes-last-flipped' % ri, w, 'content[ref%d]:5000-bytes' % ri
     # reference method
     for ri, r in enumerate(t0['refs']):
         in_args = any(isinstance(p, dict) and p.get('r') == ri for p in t0['args'])
@@ -291,9 +292,13 @@ def variations(base_name, w0):
     # stage index / name
     w = new()
     top = max(c['stage'] for c in w['comps'])
+    vacated = _target(w)['stage']
     _target(w)['stage'] = top + 1
     for r in _target(w)['refs']:
         r['abs'] = True
+    for s_ in range(top + 1):       # stages must stay contiguous
+        if not any(c['stage'] == s_ for c in w['comps']):
+            w['comps'].append(comp('Filler%s' % 'abcdef'[s_], s_, 'true', [''], []))
     yield 'stage', 'stage[target]=+1', w
     if t0['stage'] > 0:
         w = new(); _target(w)['stage'] = 0
@@ -450,11 +455,38 @@ def ambiguity_worlds(thorough):
 
 
 # ------------------------------------------------------------------ realisation on disk
+# Files "outside of the instance" must live at the same absolute path in every world that does not vary them (the
+# path is part of what the component definition says). The parent process creates one directory per run and
+# publishes it here before the workers are forked; worlds with the same external contents share a sub-directory.
+EXT_ROOT = None
+
+
+def ext_dir(world, root):
+    if not world.get('ext'):
+        return os.path.join(root, 'ext')
+    if EXT_ROOT is None or any(x.startswith('EXT/') for x in world.get('remove') or []):
+        return os.path.join(root, 'ext')      # private: a file is going to be deleted
+    k = hashlib.sha1(repr(sorted(world['ext'].items())).encode()).hexdigest()[:10]
+    return os.path.join(EXT_ROOT, k)
+
+
+def populate_atomically(location, files):
+    for path, content in files.items():
+        full = os.path.join(location, path)
+        os.makedirs(os.path.dirname(full), exist_ok=True)
+        if os.path.exists(full):
+            continue
+        tmp = '%s.%d.tmp' % (full, os.getpid())
+        with open(tmp, 'w') as f:
+            f.write(content)
+        os.replace(tmp, full)
+
+
 def ref_string(world, c, r, root):
     if r['prod'] is None:
         p = r['path']
         if p.startswith('EXT/'):
-            p = os.path.join(root, 'ext', p[4:])
+            p = os.path.join(ext_dir(world, root), p[4:])
         return '%s:%s' % (p, r['method'])
     prod = [x for x in world['comps'] if x['name'] == r['prod']][0]
     s = ('stage%d.' % prod['stage'] if r['abs'] else '') + prod['name']
@@ -511,7 +543,8 @@ def realise(world, root):
     inst = world['inst']
     location = os.path.join(root, inst['subdir'])
     os.makedirs(location, exist_ok=True)
-    populate_files(os.path.join(root, 'ext'), world.get('ext') or {})
+    extd = ext_dir(world, root)
+    populate_atomically(extd, world.get('ext') or {})
     files = {k: v for k, v in (world.get('files') or {}).items() if not k.startswith('input/')}
     inputs = []
     for k, v in (world.get('files') or {}).items():
@@ -531,14 +564,14 @@ def realise(world, root):
         populate_files(wd, outs)
     for x in world.get('remove') or []:
         if x.startswith('EXT/'):
-            os.remove(os.path.join(root, 'ext', x[4:]))
+            os.remove(os.path.join(extd, x[4:]))
         elif x.split('/')[0] in ('data', 'input'):
             os.remove(os.path.join(idir.location, x))
         else:
             cn, rel = x.split('/', 1)
             os.remove(os.path.join(idir.workingDirectoryForComponent(by_name[cn]['stage'], cn), rel))
     if inst.get('mtime'):
-        for base in (idir.location, os.path.join(root, 'ext')):
+        for base in (idir.location,) if extd.startswith(str(EXT_ROOT)) else (idir.location, extd):   # shared files are left alone
             for dp, dn, fn in os.walk(base):
                 for f in fn + dn:
                     try:
